@@ -683,6 +683,22 @@ class C18(Prop):
         inv["argv_flags"] = argv_flags(rng.fork("argv"), inv)
         return {"rule_files": rf, "decls": decls, "root": "t", "tree": [], "ext": [], "inv": inv}
 
+    def gen_specials(self, rng):
+        """other entry points of the executable: yr argument errors, module listing, save onto an existing file"""
+        out = [{"special": "modules", "cmd": ["list-modules"], "module_names": True, "load": False, "positional": []},
+               {"special": "modules", "cmd": ["yr", rng.choice(["-M", "--module-names"])], "module_names": True,
+                "load": False, "positional": []},
+               {"special": "modules", "cmd": ["yr", "-M", "-C", "a", "b"], "module_names": True, "load": True,
+                "positional": ["a", "b"]}]
+        # r.yar, c1.bin, c2.bin (saved rules) and target exist: a tool that went on would print a match
+        for pos, load in [(["r.yar"], False), (["target"], True), (["c1.bin", "c2.bin", "target"], True),
+                          (["c1.bin"], True), (["target"], False)]:
+            flags = rng.choice([[], ["-s"], ["-r", "-p", "2"], ["-n", "-c"]])
+            out.append({"special": "yr-args", "cmd": ["yr"] + (["-C"] if load else []) + flags + ["--"] + pos,
+                        "module_names": False, "load": load, "positional": pos})
+        out.append({"special": "save-twice", "text": 'rule a { strings: $a = "abc" condition: $a }\n'})
+        return out
+
     def generate(self, ctx, rng, n):
         cases = []
         i = 0
@@ -695,7 +711,7 @@ class C18(Prop):
                 cases.append(self.gen_case(r.fork("k%d" % k), (rf, decls, root, tree, ext)))
             if i % 2 == 0:
                 cases.append(self.gen_probe(r.fork("probe")))
-        return cases[:n]
+        return self.gen_specials(rng.fork("specials")) + cases[:n]
 
     def budget(self, tier):
         return 240 if tier == "quick" else 2400
@@ -920,9 +936,34 @@ class C18(Prop):
         return {"rc": proc.returncode, "stdout": bufs["o"].hex(), "stderr": bufs["e"].hex(), "cmd": cmd[1:],
                 "order": order, "held": held_counts, "driver_ok": ok}
 
+    def run_special(self, d, case):
+        os.makedirs(d)
+        env = dict(os.environ, RUST_BACKTRACE="0", NO_COLOR="1")
+
+        def run(cmd):
+            p = subprocess.run([CLI] + cmd, cwd=d, env=env, stdout=subprocess.PIPE, stderr=subprocess.PIPE,
+                               timeout=CLI_TIMEOUT)
+            return {"rc": p.returncode, "stdout": p.stdout.hex(), "stderr": p.stderr.hex(), "cmd": cmd}
+        if case["special"] == "save-twice":
+            open(os.path.join(d, "r.yar"), "w").write(case["text"])
+            first = run(["save", "-f", "r.yar", "out.bin"])
+            h1 = hashlib.sha256(open(os.path.join(d, "out.bin"), "rb").read()).hexdigest() if first["rc"] == 0 else None
+            second = run(["save", "-f", "r.yar", "out.bin"])
+            h2 = hashlib.sha256(open(os.path.join(d, "out.bin"), "rb").read()).hexdigest() if first["rc"] == 0 else None
+            return {"first": first, "second": second, "unchanged": h1 is not None and h1 == h2, "rc": second["rc"],
+                    "stdout": second["stdout"], "stderr": second["stderr"], "cmd": second["cmd"]}
+        if case["special"] == "yr-args":
+            open(os.path.join(d, "r.yar"), "w").write('rule a { strings: $a = "abc" condition: $a }\n')
+            open(os.path.join(d, "target"), "w").write("xx abc")
+            for nm in ("c1.bin", "c2.bin"):
+                run(["save", "-f", "r.yar", nm])
+        return run(case["cmd"])
+
     def one(self, ix_case):
         ix, case = ix_case
         d = os.path.join(self.base, "%d" % ix)
+        if "special" in case:
+            return {"dir": d, "cli": self.run_special(d, case), "candidates": []}
         self.materialise(d, case)
         if "probe" in case["inv"]:
             res = {"dir": d, "cli": self.run_probe(d, case)}
@@ -973,6 +1014,9 @@ class C18(Prop):
             pre = list(ex.map(self.one, list(enumerate(cases))))
         hc = []
         for case, r in zip(cases, pre):
+            if "special" in case:
+                hc.append({"special": "modules"})
+                continue
             syms = []
             for x in case.get("defines", []):
                 if x["kind"] == "bytes":
@@ -989,6 +1033,9 @@ class C18(Prop):
         for case, r, lib in zip(cases, pre, libs):
             o = {"cli": r["cli"], "lib": lib, "found": r.get("found"), "entries": r.get("entries")}
             outs.append(o)
+            if "special" in case:
+                ctx.count("special=" + case["special"])
+                continue
             inv = case["inv"]
             if "probe" in inv:
                 ctx.count("controlled-schedule")
@@ -1110,6 +1157,16 @@ class C18(Prop):
 
     def term(self, ctx, case, out):
         cli, lib = out["cli"], out["lib"]
+        if "special" in case:
+            if not isinstance(lib, dict) or "modules" not in lib or "rc" not in cli:
+                return (False, False, 0)
+            so = bytes.fromhex(cli["stdout"])
+            lines = so.split(b"\n")[:-1] if so else []
+            if case["special"] == "save-twice":
+                return "C18_save_case %d %d %s" % (cli["first"]["rc"], cli["second"]["rc"], gbool(cli["unchanged"]))
+            return "C18_yr_case %s %s %s %s %s %d" % (
+                gbool(case["module_names"]), gbool(case["load"]), glist([gb(x) for x in case["positional"]]),
+                glist([gbytes(bytes.fromhex(m)) for m in lib["modules"]]), glist([gbytes(l) for l in lines]), cli["rc"])
         if isinstance(lib, dict) and "compile_error" in lib:
             # the library rejects the rules: the tool must fail the same way, before scanning anything
             if "save_failed" in cli:
@@ -1215,6 +1272,8 @@ class C18(Prop):
                 "out_lines": out_lines, "err_lines": sorted(err_lines)}
 
     def nontrivial(self, case, out):
+        if "special" in case:
+            return None
         try:
             cli = out["cli"]
             n_lines = len(bytes.fromhex(cli["stdout"]).split(b"\n")) - 1
@@ -1227,6 +1286,8 @@ class C18(Prop):
 
     def sample(self, case, out):
         cli = out.get("cli", {}) if isinstance(out, dict) else {}
+        if "special" in case:
+            return {"special": case["special"], "cmd": cli.get("cmd"), "rc": cli.get("rc")}
         return {"cmd": cli.get("cmd"), "rc": cli.get("rc"),
                 "stdout_head": bytes.fromhex(cli.get("stdout", "")).decode("utf-8", "replace")[:600],
                 "rules": [rf["text"][:400] for rf in case["rule_files"]],
